@@ -105,6 +105,7 @@ class WorldGen(object):
         self.draft = knobs.draft
         self.idkw = idkw_of(self.draft)
         self.modern = self.draft in ("draft6", "draft7")
+        self.reflog = []   # (reference string, target document URL) as generated
 
     # ------------------------------------------------------------ top level
     def world(self):
@@ -157,7 +158,7 @@ class WorldGen(object):
         return {
             "draft": self.draft, "root_url": self.root_url, "root": root, "docs": docs,
             "store_docs": store_docs, "custom": self.custom, "formats": self.formats,
-            "homes": homes, "instances": instances,
+            "homes": homes, "instances": instances, "reflog": self.reflog,
         }
 
     def top_level(self, base):
@@ -195,7 +196,9 @@ class WorldGen(object):
         sp = spellings(base, url, "/definitions/d%d" % j)
         if not sp:
             return None
-        return {"$ref": self.rng.choice(sp)}
+        r = self.rng.choice(sp)
+        self.reflog.append([r, url])
+        return {"$ref": r}
 
     def ref(self, base, index, consumed):
         rng, k = self.rng, self.k
@@ -229,6 +232,7 @@ class WorldGen(object):
             elif kind == "docroot":
                 sp = spellings(base, x, "")
                 r = {"$ref": rng.choice(sp)}
+                self.reflog.append([r["$ref"], x])
             elif kind == "root":
                 sp = spellings(base, self.root_url, "")
                 if not sp:
